@@ -110,13 +110,17 @@ def run_case(case):
                 check_scc(adj, r, ('digraphs', n, bits, bits + 1))
         return r
     if case[0] == 'grammar':
-        check_grammar(case[1], r, case[2])
+        if case[2] == 'edited':
+            check_edited(case[1], r)
+        else:
+            check_grammar(case[1], r, case[2])
         return r
     _, tier, lo, hi = case
     irs = list(itertools.islice(grammar_irs(tier), lo, hi))
     for g in irs:
         check_grammar(g, r, stale=False)
         check_grammar(g, r, stale=True)
+        check_edited(g, r)
     return r
 
 
@@ -176,3 +180,60 @@ def check_grammar(g, r, stale=False):
             return
     nontriv = any(want[x] for x in want)
     r.ok(key, outcome=('nt-edges', sum(len(v) for v in want.values())), nontrivial=nontriv)
+
+
+def check_edited(g, r):
+    """History variant: the dependency graph is queried, then an existing rule's right-hand side is edited in place
+    (an edge of an already known nonterminal is added, later removed again) and the graph is queried again on the
+    same grammar object: each answer must be the dependency relation of the grammar as it is at that moment."""
+    import fggs
+    from fggs.utils import nonterminal_graph
+    case = ('grammar', g, 'edited')
+    try:
+        fgg = IR.build_fgg(g, 'bool')
+        nonterminal_graph(fgg)
+        fggs.sum_products(fgg, semiring=IR.semiring('bool'))
+    except Exception as e:
+        r.exc(e, 'edited', case, ('ge', tuple(g['rules'])))
+        return
+    want0 = IR.nt_graph(g)
+    lfp = oracles.bool_lfp(g)
+    for ri, rule in enumerate(list(fgg.all_rules())):
+        for nt in list(fgg.nonterminals()):
+            key = ('ge', tuple(g['rules']), ri, nt.name)
+            try:
+                nodes = [fggs.Node(l) for l in nt.type]
+                e = fggs.Edge(nt, nodes)
+                rule.rhs.add_edge(e)
+                want = {k: set(v) for k, v in want0.items()}
+                want[rule.lhs.name].add(nt.name)
+                ng = nonterminal_graph(fgg)
+                got = {x.name: {y.name for y in ng[x]} for x in ng}
+                if got != want:
+                    r.bad('stale-nonterminal-graph', 'utils.nonterminal_graph', 'edited', 'after adding an edge %s to rule %d of %r: got=%r want=%r' % (nt.name, ri, g['rules'], got, want), case, key)
+                    rule.rhs.remove_edge(e)
+                    for v in nodes:
+                        rule.rhs.remove_node(v)
+                    continue
+                check_scc(ng, r, case, trig='edited')
+                zs = fggs.sum_products(fgg, semiring=IR.semiring('bool'))
+                missing = [x.name for x in fgg.nonterminals() if x not in zs]
+                rule.rhs.remove_edge(e)
+                for v in nodes:
+                    rule.rhs.remove_node(v)
+                ng = nonterminal_graph(fgg)
+                got = {x.name: {y.name for y in ng[x]} for x in ng}
+                if missing:
+                    r.bad('missing-key', 'sum_product.sum_products', 'edited', 'after adding an edge %s to rule %d of %r: no value for %r' % (nt.name, ri, g['rules'], missing), case, key)
+                elif got != want0:
+                    r.bad('stale-nonterminal-graph', 'utils.nonterminal_graph', 'edited', 'after removing the edge %s again from rule %d of %r: got=%r want=%r' % (nt.name, ri, g['rules'], got, want0), case, key)
+                else:
+                    zs = fggs.sum_products(fgg, semiring=IR.semiring('bool'))
+                    okv = all(IR.tensors_agree(zs[fgg.get_edge_label(x)].to_dense(), IR.expected_tensor(lfp[x], oracles.ext_shape(g, x), 'bool')) for x in g['nt'])
+                    if not okv:
+                        r.bad('wrong-value', 'sum_product.sum_products', 'edited', 'after add+remove of an edge %s in rule %d of %r the Bool values differ from the least fixed point' % (nt.name, ri, g['rules']), case, key)
+                    else:
+                        r.ok(key, outcome='edited', nontrivial=True)
+            except Exception as e2:
+                r.exc(e2, 'edited', case, key)
+                return
